@@ -1,4 +1,76 @@
 import Model
+import Proofs.C09
+
+/-
+  C09 — listings only show items that really belong there.
+  Property theorems only; helper lemmas live in Proofs/C09.lean.
+-/
+
 namespace C09
-theorem placeholder : True := trivial
+open Pub
+
+/-- (1) An outbox element is delivered as an activity exactly when it is an activity whose
+    resolved actor id (after any re-fetching, C02) equals the owner's id; in every other case it
+    is delivered as an error item in its place. -/
+theorem outbox_genuine (w : World) (owner : Option U) (e : E) :
+    (∀ act, outboxItem w owner e = .activity act →
+        newActivity w e.1 e.2 = .ok act ∧
+        ∃ oid aid, owner = some oid ∧ act.actorId = some aid ∧ aid.str = oid.str) ∧
+    ((¬ ∃ act, newActivity w e.1 e.2 = .ok act ∧
+        ∃ oid aid, owner = some oid ∧ act.actorId = some aid ∧ aid.str = oid.str) →
+      outboxItem w owner e = .failure) ∧
+    (∀ act oid aid, newActivity w e.1 e.2 = .ok act → owner = some oid → act.actorId = some aid →
+        aid.str = oid.str → outboxItem w owner e = .activity act) :=
+  C09aux.outbox_genuine w owner e
+
+/-- (2) A reply-collection element is delivered as a post exactly when it is a post whose
+    resolved reply target equals this very post's id. -/
+theorem reply_genuine (w : World) (parent : Option U) (e : E) :
+    (∀ c, replyItem w parent e = .post c →
+        newPost w e.1 e.2 = .ok c ∧ ∃ pid cid, parent = some pid ∧ c.parentId = some cid ∧ cid.str = pid.str) ∧
+    ((¬ ∃ c, newPost w e.1 e.2 = .ok c ∧ ∃ pid cid, parent = some pid ∧ c.parentId = some cid ∧ cid.str = pid.str) →
+      replyItem w parent e = .failure) ∧
+    (∀ c pid cid, newPost w e.1 e.2 = .ok c → parent = some pid → c.parentId = some cid →
+        cid.str = pid.str → replyItem w parent e = .post c) :=
+  C09aux.reply_genuine w parent e
+
+/-- Listing filters never produce anything but the genuine kind or an error item. -/
+theorem outbox_kinds (w : World) (owner : Option U) (e : E) :
+    outboxItem w owner e = .failure ∨ ∃ act, outboxItem w owner e = .activity act :=
+  C09aux.outbox_kinds w owner e
+
+theorem reply_kinds (w : World) (parent : Option U) (e : E) :
+    replyItem w parent e = .failure ∨ ∃ c, replyItem w parent e = .post c :=
+  C09aux.reply_kinds w parent e
+
+/-- (3) A post is shown with an author only if author and post live on the same host (or
+    neither has an id); otherwise the post itself is refused. -/
+theorem post_authors_same_host (w : World) (o : O) (id : Option U) (p : PostM)
+    (h : newPostFromObject w o id = .ok p) :
+    p.id = id ∧ ∀ a, AorF.actor a ∈ p.creators →
+      (a.id = none ∧ id = none) ∨ (∃ ai pi, a.id = some ai ∧ id = some pi ∧ ai.host = pi.host) :=
+  C09aux.post_authors_same_host w o id p h
+
+/-- (4) Positions are kept: a listing has exactly one entry per delivered element, in order —
+    failures stay in their position, nothing is dropped. -/
+theorem actor_listing_positions (w : World) (a : ActorM) (amount start : Nat) (c : CollM)
+    (hc : a.posts = .ok c) :
+    ∃ items cont, actorChildren w a amount start = some (items, cont) ∧
+      items = (Coll.harvest (loadPage w) c.page amount start).out.map (deliver (outboxItem w a.id)) ∧
+      items.length = (Coll.harvest (loadPage w) c.page amount start).out.length :=
+  C09aux.actor_listing_positions w a amount start c hc
+
+theorem post_listing_positions (w : World) (p : PostM) (amount start : Nat) (c : CollM)
+    (hc : p.comments = .ok c) :
+    ∃ items cont, postChildren w p amount start = some (items, cont) ∧
+      items = (Coll.harvest (loadPage w) c.page amount start).out.map (deliver (replyItem w p.id)) ∧
+      items.length = (Coll.harvest (loadPage w) c.page amount start).out.length :=
+  C09aux.post_listing_positions w p amount start c hc
+
+/-- Ancestors: at most `q` of them, each a post or an error item, and an error item ends the
+    chain. -/
+theorem parents_bounded (w : World) (q : Nat) (p : PostM) :
+    (parents w q p).1.length ≤ q :=
+  C09aux.parents_bounded w q p
+
 end C09
